@@ -3,7 +3,7 @@
    M S (any state type S), so it may fail (first error wins: the final state is the state at the
    failing application and nothing is applied afterwards) and it may have effects (so equality of
    the two sides in every state is also equality of the sequence of applications made). *)
-From Coq Require Import ZArith List Bool String.
+From Coq Require Import ZArith List Bool String Floats.SpecFloat.
 From C02 Require Import Generated Model Spec Proofs.
 Import ListNotations.
 Open Scope list_scope.
@@ -14,8 +14,9 @@ Open Scope Z_scope.
    operator-shortcut tables of adverbs.py (operator, NumPy call, guards). *)
 Theorem C02_tables :
   is_adverb_set = is_adverb_model /\ adverb_arity = adverb_arity_model /\ adverb_fn = adverb_fn_model /\
-  over_shortcuts = over_table_model /\ scan_shortcuts = scan_table_model.
-Proof. exact (conj eq_refl (conj eq_refl (conj eq_refl (conj eq_refl eq_refl)))). Qed.
+  over_shortcuts = over_table_model /\ scan_shortcuts = scan_table_model /\
+  zero_divisor_guard = zero_divisor_guard_model.
+Proof. exact (conj eq_refl (conj eq_refl (conj eq_refl (conj eq_refl (conj eq_refl eq_refl))))). Qed.
 Print Assumptions C02_tables.
 
 (* f'a = f(a1),...,f(aN); atom f(a); [] and "" unchanged; dictionary: f of every [key value] tuple.
@@ -24,8 +25,10 @@ Theorem C02_each : forall S (f : val -> M S val) a s, agrees S (m_each f a s) (s
 Proof. exact each_agrees. Qed.
 Print Assumptions C02_each.
 
+(* Each-2 on ALL operands; where the reference is silent (an atom paired with a list) s_each2 records the
+   domain decision that the specification follows the implementation (Spec.v, `pairable`). *)
 Theorem C02_each2 : forall S (f : val -> val -> M S val) a b s,
-  each2_dom a b = true -> agrees S (m_each2 f a b s) (s_each2 f a b s).
+  agrees S (m_each2 f a b s) (s_each2 f a b s).
 Proof. exact each2_agrees. Qed.
 Print Assumptions C02_each2.
 
@@ -80,24 +83,43 @@ Proof. exact scan_iterating_eq. Qed.
 Print Assumptions C02_scan_iterating.
 
 (* ---- The operator shortcuts (the part sampled tests cannot span) ----
-   With the verb's own semantics on integers and nested integer lists (ew2 u: the atomic extension of the
-   scalar operation), the shortcut taken for an operator verb is indistinguishable from the expansion,
-   for EVERY operand a: integer vectors (ufunc.reduce / np.min / np.max / the array itself), integer
-   matrices of any size (reduce along axis 0 column by column = fold of the row-wise operation;
-   concatenation of the rows), length-1 and empty operands, atoms, and object (nested) arrays.
-   The table is the one regenerated from eval_adverb_over on this run (C02_tables / eq_refl). *)
+   Numbers are integers (Z) and binary64 reals (Coq.Floats.SpecFloat, bit-exact): n_add n_sub n_mul compute
+   int op int in Z and anything with a real in binary64 after int->float conversion; n_div is true division,
+   always binary64.  With the verb's own semantics (ew2 u: the atomic extension of the scalar operation), the
+   shortcut taken for an operator verb is indistinguishable from the expansion for EVERY operand a: integer and
+   real vectors (ufunc.reduce, a LEFT fold: see the assumption on pairwise summation in notes), integer and real
+   matrices of any size (reduce along axis 0 column by column = fold of the row-wise operation; concatenation
+   of the rows), length-1 and empty operands, atoms, and object (nested) arrays.  divide.reduce converts an
+   integer array to binary64 first; that cast does not change any quotient (uf_ok_divide).
+   The tables are the ones regenerated from eval_adverb_over / eval_adverb_scan_over on this run (eq_refl). *)
 Theorem C02_over_shortcut_arith : forall S op u (a : val) (s : S),
-  In (op, u) [("+"%string, Z.add); ("-"%string, Z.sub); ("*"%string, Z.mul)] ->
+  In (op, u) [("+"%string, n_add); ("-"%string, n_sub); ("*"%string, n_mul)] ->
   m_over over_shortcuts (Some op) (pure2 (ew2 u)) a s = s_over (pure2 (ew2 u)) a s.
-Proof. exact (fun S => eq_ind _ (fun t => forall op u a s, In (op, u) (arith_ops) ->
+Proof. exact (fun S => eq_ind _ (fun t => forall op u a s,
+                In (op, u) [("+"%string, n_add); ("-"%string, n_sub); ("*"%string, n_mul)] ->
                 m_over t (Some op) (pure2 (ew2 u)) a s = s_over (pure2 (ew2 u)) a s)
               (over_shortcut_arith S) _ (eq_refl : over_table_model = over_shortcuts)). Qed.
 Print Assumptions C02_over_shortcut_arith.
 
+(* %/a.  The verb is klong_div: a%0 is :undefined (Err 97 here) when both operands are atoms, element-wise true
+   division in binary64 otherwise.  divide.reduce is taken only when no divisor a2..aN of a flat array is zero
+   (the guard `_has_zero_divisor`, regenerated text checked in C02_tables); it converts an integer array to
+   binary64 first, which changes no quotient.  div_dom a excludes only object arrays holding a zero number. *)
+Theorem C02_over_shortcut_divide : forall S (a : val) (s : S),
+  div_dom a = true ->
+  m_over over_shortcuts (Some "%"%string) (pure2 klong_div) a s = s_over (pure2 klong_div) a s.
+Proof. exact (fun S => eq_ind _ (fun t => forall a s, div_dom a = true ->
+                m_over t (Some "%"%string) (pure2 klong_div) a s = s_over (pure2 klong_div) a s)
+              (over_shortcut_divide S) _ (eq_refl : over_table_model = over_shortcuts)). Qed.
+Print Assumptions C02_over_shortcut_divide.
+
+(* minmax_dom a: a is not a vector of reals (binary64 min/max is not associative-commutative with -0.0 / NaN;
+   real vectors are covered by the correspondence only) *)
 Theorem C02_over_shortcut_minmax : forall S op u (a : val) (s : S),
-  In (op, u) [("&"%string, Z.min); ("|"%string, Z.max)] ->
+  In (op, u) [("&"%string, n_min); ("|"%string, n_max)] -> minmax_dom a = true ->
   m_over over_shortcuts (Some op) (pure2 (ew2 u)) a s = s_over (pure2 (ew2 u)) a s.
-Proof. exact (fun S => eq_ind _ (fun t => forall op u a s, In (op, u) [("&"%string, Z.min); ("|"%string, Z.max)] ->
+Proof. exact (fun S => eq_ind _ (fun t => forall op u a s, In (op, u) [("&"%string, n_min); ("|"%string, n_max)] ->
+                minmax_dom a = true ->
                 m_over t (Some op) (pure2 (ew2 u)) a s = s_over (pure2 (ew2 u)) a s)
               (over_shortcut_minmax S) _ (eq_refl : over_table_model = over_shortcuts)). Qed.
 Print Assumptions C02_over_shortcut_minmax.
@@ -108,6 +130,52 @@ Proof. exact (fun S => eq_ind _ (fun t => forall a s, m_over t (Some ","%string)
               (over_shortcut_join S) _ (eq_refl : over_table_model = over_shortcuts)). Qed.
 Print Assumptions C02_over_shortcut_join.
 
+(* +\a -\a *\a by ufunc.accumulate = f\a for every operand (vectors: running fold; matrices: accumulate along
+   axis 0 column by column = running fold of the row-wise operation; object arrays).  & | , have no scan
+   shortcut in the regenerated table: C02_scan_generic is their theorem. *)
+Theorem C02_scan_shortcut_arith : forall S op u (a : val) (s : S),
+  In (op, u) [("+"%string, n_add); ("-"%string, n_sub); ("*"%string, n_mul)] ->
+  m_scan scan_shortcuts (Some op) (pure2 (ew2 u)) a s = s_scan (pure2 (ew2 u)) a s.
+Proof. exact (fun S => eq_ind _ (fun t => forall op u a s,
+                In (op, u) [("+"%string, n_add); ("-"%string, n_sub); ("*"%string, n_mul)] ->
+                m_scan t (Some op) (pure2 (ew2 u)) a s = s_scan (pure2 (ew2 u)) a s)
+              (scan_shortcut_arith S) _ (eq_refl : scan_table_model = scan_shortcuts)). Qed.
+Print Assumptions C02_scan_shortcut_arith.
+
+(* %\a by divide.accumulate (same guard): the expansion, except that its first slot a1 comes out converted to
+   binary64 when a is a numeric array and the shortcut is taken (`%\[5]` is [5.0]): a numeric-representation
+   difference, not a different number. *)
+Theorem C02_scan_shortcut_divide : forall S (a : val) (s : S),
+  is_atom a = false -> div_dom a = true ->
+  m_scan scan_shortcuts (Some "%"%string) (pure2 klong_div) a s
+  = ((if zero_divisor (items a) then fun r => r
+      else on_first (fun _ => cast_first {| uf_cast := cast_real; uf_op := n_div |} (items a)))
+       (fst (s_scan (pure2 klong_div) a s)), s).
+Proof. exact (fun S => eq_ind _ (fun t => forall a s, is_atom a = false -> div_dom a = true ->
+                m_scan t (Some "%"%string) (pure2 klong_div) a s
+                = ((if zero_divisor (items a) then fun r => r
+                    else on_first (fun _ => cast_first {| uf_cast := cast_real; uf_op := n_div |} (items a)))
+                     (fst (s_scan (pure2 klong_div) a s)), s))
+              (scan_shortcut_divide S) _ (eq_refl : scan_table_model = scan_shortcuts)). Qed.
+Print Assumptions C02_scan_shortcut_divide.
+
+(* The same two facts for ANY ufunc whose cast does not change its results (uf_ok), e.g. any operation
+   over an exact field with no cast: reduce = left fold, accumulate = running fold. *)
+Theorem C02_np_reduce_any_ufunc : forall uf, uf_ok uf -> forall x y xs,
+  np_reduce uf (x :: y :: xs) = over_pure (ew2 (uf_op uf)) (x :: y :: xs).
+Proof. exact np_reduce_is_fold. Qed.
+Print Assumptions C02_np_reduce_any_ufunc.
+
+Theorem C02_np_accumulate_any_ufunc : forall uf, uf_ok uf -> forall x xs,
+  np_accumulate uf (x :: xs)
+  = match acc_res (ew2 (uf_op uf)) x xs with
+    | Ok l => Ok (VList (cast_first uf (x :: xs) :: l))
+    | Err e => Err e
+    | OutOfFuel => OutOfFuel
+    end.
+Proof. exact np_accumulate_is_scan. Qed.
+Print Assumptions C02_np_accumulate_any_ufunc.
+
 (* NumPy's reduce along axis 0, for ANY scalar type and operation (so also float64 division and
    subtraction): reducing every column on its own is the left fold of the row-wise operation. *)
 Theorem C02_reduce_axis0_any_scalar : forall (A : Type) (u : A -> A -> A) (d : A) n r0 rows,
@@ -115,6 +183,13 @@ Theorem C02_reduce_axis0_any_scalar : forall (A : Type) (u : A -> A -> A) (d : A
   reduce_axis0 u d n (r0 :: rows) = fold_left (zipw u) rows r0.
 Proof. exact reduce_axis0_is_fold. Qed.
 Print Assumptions C02_reduce_axis0_any_scalar.
+
+(* accumulate along axis 0, for ANY scalar type and operation (exact fields, binary64, ...) *)
+Theorem C02_accumulate_axis0_any_scalar : forall (A : Type) (u : A -> A -> A) (d : A) n r0 rows,
+  List.length r0 = n -> forallb (fun r => Nat.eqb (List.length r) n) rows = true ->
+  accumulate_axis0 u d n (r0 :: rows) = scanl1 (zipw u) (r0 :: rows).
+Proof. exact accumulate_axis0_is_scan. Qed.
+Print Assumptions C02_accumulate_axis0_any_scalar.
 
 (* ---- Chains compose left to right, any length: appending an adverb applies it to the monad
    derived so far; the first adverb is applied to the verb itself. *)
@@ -146,15 +221,46 @@ Theorem C02_while_terminates : forall (p g : val -> res val) (x : nat -> val) n,
 Proof. exact while_terminates. Qed.
 Print Assumptions C02_while_terminates.
 
+(* Scan-Converging / Scan-While: the collected list is the orbit up to the fixpoint (x 0 .. x n) / the orbit
+   elements that satisfy the test (x 0 .. x (n-1)); same call traces as Converge / While. *)
+Theorem C02_scan_converging_terminates : forall (g : val -> res val) (x : nat -> val) n,
+  (forall k, (k <= n)%nat -> g (x k) = Ok (x (Datatypes.S k))) ->
+  (forall k, (k < n)%nat -> kg_equal (x k) (x (Datatypes.S k)) = false) ->
+  kg_equal (x n) (x (Datatypes.S n)) = true ->
+  forall fuel log, (n < fuel)%nat ->
+  m_scan_converging fuel (logged1 g) (x 0%nat) log
+  = (Ok (VList (orbit_list x (Datatypes.S n))), log ++ calls_of x 0 (Datatypes.S n)).
+Proof. exact scan_converging_terminates. Qed.
+Print Assumptions C02_scan_converging_terminates.
+
+Theorem C02_scan_while_terminates : forall (p g : val -> res val) (x : nat -> val) n,
+  (forall k, (k < n)%nat -> g (x k) = Ok (x (Datatypes.S k))) ->
+  (forall k, (k < n)%nat -> exists t, p (x k) = Ok t /\ truthy t = Ok true) ->
+  (exists t, p (x n) = Ok t /\ truthy t = Ok false) ->
+  forall fuel log, (n < fuel)%nat ->
+  m_scan_while fuel (loggedp p) (logged1 g) (x 0%nat) log
+  = (Ok (VList (orbit_list x n)), log ++ while_calls x 0 n ++ [CallP (x n)]).
+Proof. exact scan_while_terminates. Qed.
+Print Assumptions C02_scan_while_terminates.
+
 (* Iterate with a negative count never ends (outside the documented domain): every fuel is exhausted *)
 Theorem C02_iterate_negative_refuted_termination :
   m_iterate 50 (pure1 (fun v => Ok v)) (VInt (-1)) (VInt 0) tt = (OutOfFuel, tt).
 Proof. vm_compute. reflexivity. Qed.
 
 Example C02_shortcut_example :
-  m_over over_shortcuts (Some "-"%string) (pure2 (ew2 Z.sub)) (VList [vints [1; 2]; vints [3; 4]; vints [5; 7]]) tt
+  m_over over_shortcuts (Some "-"%string) (pure2 (ew2 n_sub)) (VList [vints [1; 2]; vints [3; 4]; vints [5; 7]]) tt
     = (Ok (vints [-7; -9]), tt) /\
   m_over over_shortcuts (Some ","%string) (pure2 join) (VList [vints [1; 2]; vints [3; 4]]) tt = (Ok (vints [1; 2; 3; 4]), tt) /\
+  (* 0.1 + 0.2 + 0.3 in binary64, left to right: 0.6000000000000001 *)
+  m_over over_shortcuts (Some "+"%string) (pure2 (ew2 n_add))
+    (VList [VReal (fdiv (of_Z 1) (of_Z 10)); VReal (fdiv (of_Z 2) (of_Z 10)); VReal (fdiv (of_Z 3) (of_Z 10))]) tt
+    = (Ok (VReal (S754_finite false 5404319552844596 (-53))), tt) /\
+  m_scan scan_shortcuts (Some "%"%string) (pure2 klong_div) (vints [6; 3; 2]) tt
+    = (Ok (VList [VReal (of_Z 6); VReal (of_Z 2); VReal (of_Z 1)]), tt) /\
+  m_over over_shortcuts (Some "%"%string) (pure2 klong_div) (vints [1; 0]) tt = (Err E_UNDEF, tt) /\
+  div_dom (vints [1; 0]) = true /\
+  minmax_dom (vints [3; 1; 2]) = true /\
   m_converge 10 (logged1 (fun v => match v with VInt z => Ok (VInt (z / 2)) | _ => Err 1 end)) (VInt 5) []
     = (Ok (VInt 0), [Call1 (VInt 5); Call1 (VInt 2); Call1 (VInt 1); Call1 (VInt 0)]).
 Proof. vm_compute. repeat split; reflexivity. Qed.
